@@ -5,13 +5,14 @@ CFG = dict(
           "key), C18_announce_once, C18_announce_first_use, C18_write_exact, C18_calls (every accepted logical write appears unchanged, "
           "once, in per-connection order on the shared transport), C18_no_crash, C18_cancel_unblocks, C18_cancel_settles, "
           "C18_cancel_errors (after Cancel reads/writes fail: no crash, no call blocked in a quiescent state, only errors once settled) "
-          "and C18_stop_dead (after Stop every quiescent state has a dead run loop and dead writer goroutines) in coq/Props/C18.v, "
+          "C18_stop_dead (after Stop every quiescent state has a dead run loop and dead writer goroutines) and C18_run_alive (the run loop "
+          "ends only by Stop or a failed shared Read, never by a Cancel(key)) in coq/Props/C18.v, "
           "over all label sequences of the small-step model coq/Model/Demux.v (unbounded keys, envelopes, calls; any interleaving); "
           "the model is run lock-step against the real goat.Demux on every run.",
     props="Props/C18.v",
     theorems=["C18_route_exact", "C18_route_live", "C18_route_key", "C18_one_instance", "C18_route_uncancelled",
               "C18_announce_once", "C18_announce_first_use", "C18_write_exact", "C18_calls", "C18_no_crash",
-              "C18_cancel_unblocks", "C18_cancel_settles", "C18_cancel_errors", "C18_stop_dead"],
+              "C18_cancel_unblocks", "C18_cancel_settles", "C18_cancel_errors", "C18_stop_dead", "C18_run_alive"],
     imports=["Model.Demux", "Check.C18c"],
     case_type="c18case",
     find_bad_from="find_bad_from",
@@ -23,6 +24,7 @@ CFG = dict(
                  "4": "write: an envelope on the shared transport is not the unchanged envelope of an accepted logical Write, or appears twice, out of per-connection order, or is missing",
                  "5": "cancel: a panic, a call blocked on a cancelled connection at a quiescent point, or a call issued after the Cancel that did not fail",
                  "6": "stop: the run loop or a writer goroutine is alive at a quiescent point after Stop",
+                 "8": "alive: the run loop ended although Stop was not called and the shared transport's Read had not failed",
                  "7": "end-to-end: an RPC through the real Demux ended differently from the same RPC on a direct connection"},
     rule="lock-step in synctest bubbles on the real goat.Demux + logical connections (one action, synctest.Wait, snapshot: announcements, "
          "call returns, shared-transport writes, blocked calls, Run / writer goroutines by runtime.Stack, registered keys): ALL action "
